@@ -78,9 +78,9 @@ Proof.
 Qed.
 
 Section Reach.
-  Variable gt : nat -> nat -> N -> N -> N * list cop.
-  Variable pl : nat -> nat -> N -> N -> list cop.
-  Hypothesis gt_pure : forall x k now prev, snd (gt x k now prev) = [].
+  Variable gt : nmap -> nat -> nat -> N -> N -> N * list cop.
+  Variable pl : nmap -> nat -> nat -> N -> N -> list cop.
+  Hypothesis gt_pure : forall m x k now prev, snd (gt m x k now prev) = [].
 
   Lemma is_root_facts m r : is_root m r = true -> alive (m r) = true /\ parent (m r) = None.
   Proof.
